@@ -110,7 +110,8 @@ def sub_cases(draw):
         "in_prefix": draw(prefixes([1, 1, 0, 0, 6])),
         "out_prefix": draw(_level),
         "restored": net([1, 2, 3]) if draw(st.booleans()) else [],
-        "prestart": net([3, 6, 7]) if draw(st.integers(0, 2)) == 0 else [],
+        # nodes that become known before start() (their children are presented afterwards, see "live")
+        "prestart": [f"{n};255;0;0;17;2.0" for n in draw(st.lists(st.sampled_from([3, 4, 5, 200]), max_size=3, unique=True))] + (net([6, 7]) if draw(st.integers(0, 3)) == 0 else []),
         "persistence": draw(st.booleans()),
         "ext": draw(st.sampled_from(["json", "pickle"])),
         "live": net([3, 4, 5, 200]) + (["9;1;0;0;6;child of unknown node"] if draw(st.booleans()) else []),
